@@ -30,7 +30,7 @@ func (s *Server) Search(ctx context.Context, req *webserverv1.SearchRequest) (*w
 		return nil, status.Error(codes.InvalidArgument, err.Error())
 	}
 
-	res, err := s.streamer.Search(ctx, q, zoekt.SearchOptionsFromProto(req.GetOpts()))
+	res, err := s.streamer.Search(ctx, q, searchOptions(req.GetOpts()))
 	if err != nil {
 		return nil, err
 	}
@@ -49,11 +49,20 @@ func (s *Server) StreamSearch(req *webserverv1.StreamSearchRequest, ss webserver
 	sender := gRPCChunkSender(ss)
 	sampler := newSamplingSender(sender)
 
-	err = s.streamer.StreamSearch(ss.Context(), q, zoekt.SearchOptionsFromProto(request.GetOpts()), sampler)
+	err = s.streamer.StreamSearch(ss.Context(), q, searchOptions(request.GetOpts()), sampler)
 	if err == nil {
 		sampler.Flush()
 	}
 	return err
+}
+
+// searchOptions treats an unset options message as the default options: the
+// searchers dereference the options.
+func searchOptions(p *webserverv1.SearchOptions) *zoekt.SearchOptions {
+	if p == nil {
+		return &zoekt.SearchOptions{}
+	}
+	return zoekt.SearchOptionsFromProto(p)
 }
 
 func (s *Server) List(ctx context.Context, req *webserverv1.ListRequest) (*webserverv1.ListResponse, error) {
